@@ -12,6 +12,7 @@ mod json;
 mod level;
 mod out;
 mod queue;
+mod text;
 
 use enc::*;
 use std::io::BufRead;
@@ -56,6 +57,7 @@ fn main() {
         "queue" => queue::run(&args[2]),
         "qconc" => conc::run_queue(&args[2]),
         "json" => json::run(),
+        "text" => text::run(),
         other => {
             eprintln!("unknown subcommand {other}");
             std::process::exit(2);
